@@ -28,7 +28,8 @@ def check(prog: Program, tier: str) -> Result:
             "key), an ordered accumulation that is later joined, a first-match exit, transaction numbering. Text that "
             "consists of import statements only is exempt iff fixes.sort_imports runs after every call of the "
             "containing function in format_code (checked). (R6.4) a keyed sort over a set of str tuples only forgets the set order if the key "
-            "contains every component (sorted() is stable: ties keep hash-seed order). Not decided: sets of AST nodes (address order), equal-key "
+            "contains every component (sorted() is stable: ties keep hash-seed order). (R6.5) a loop over a set (str: hash seed; syntax nodes: memory "
+            "address) carries no assigned value from one iteration to the next. Not decided: every other use of address-ordered node sets, equal-key "
             "ties, determinism of black/sympy."),
         rule_text="instances = dispatch clauses, sort-key components, exposure sites of str-set iteration order; non-trivial = sinks",
     )
@@ -438,6 +439,9 @@ def _callers_in_pipeline(prog: Program, fn: Func, fc: Func) -> List[Tuple[str, s
 from ..selftest import Variant  # noqa: E402
 
 VARIANTS = [
+    Variant("conditions-folded-in-set-order", "FIRE", "symbolic_math",
+            "        for condition in sorted(\n            core.filter_nodes(conditions, templates), key=lambda n: (n.lineno, n.col_offset)\n        ):",
+            "        for condition in core.filter_nodes(conditions, templates):", "R6.5"),
     Variant("alias-sort-key-without-tie-breaker", "FIRE", "fixes",
             "        names = sorted(\n            {(alias.name, alias.asname) for alias in node.names},\n            key=lambda t: (t[0], t[1] is not None, t[1]),\n        )",
             "        names = sorted(\n            {(alias.name, alias.asname) for alias in node.names},\n            key=lambda t: (t[0], t[1] is not None),\n        )", "R6.4"),
